@@ -48,12 +48,14 @@ pub struct Profile {
     pub reuse_bias: u32,
     pub modes: bool,
     pub err_returns: bool,
+    /// weight of adapter operations among the miscellaneous ones
+    pub adapters: u32,
 }
 
 pub fn profile(name: &str) -> Profile {
     let base = Profile {
         name: "core",
-        kinds: [3, 3, 3, 3, 1, 0, 0, 0, 0],
+        kinds: [3, 3, 3, 3, 1, 1, 1, 0, 0],
         w_insert: 5,
         w_token: 6,
         w_cause: 8,
@@ -74,6 +76,7 @@ pub fn profile(name: &str) -> Profile {
         reuse_bias: 1,
         modes: true,
         err_returns: false,
+        adapters: 0,
     };
     match name {
         "C01" => Profile { name: "C01", w_token: 8, reuse_bias: 4, kinds: [4, 3, 3, 4, 0, 0, 0, 0, 0], err_returns: true, ..base },
@@ -85,11 +88,13 @@ pub fn profile(name: &str) -> Profile {
         "C07" => Profile { name: "C07", w_token: 10, err_returns: true, ..base },
         "C08" => Profile { name: "C08", script_len: (1, 5), script_ops: (1, 6), w_idle: 4, ..base },
         "C09" => Profile { name: "C09", kinds: [2, 1, 2, 8, 0, 0, 0, 0, 0], err_returns: true, script_len: (1, 5), ..base },
+        "C10" => Profile { name: "C10", kinds: [1, 1, 1, 0, 0, 8, 5, 0, 0], w_cause: 14, ..base },
+        "C17" => Profile { name: "C17", kinds: [1, 0, 1, 0, 0, 8, 0, 0, 0], adapters: 12, w_cause: 10, max_sources: 4, natural_faults: true, ..base },
         "C12" => Profile { name: "C12", kinds: [2, 1, 8, 1, 0, 0, 0, 0, 0], w_dispatch: 10, w_advance: 5, w_cause: 3, ..base },
         "C13" => Profile { name: "C13", w_idle: 10, err_returns: true, ..base },
-        "C15" => Profile { name: "C15", faults: false, scripted_faults: true, natural_faults: true, err_returns: true, kinds: [3, 2, 3, 6, 0, 0, 0, 0, 0], ..base },
+        "C15" => Profile { name: "C15", adapters: 3, faults: false, scripted_faults: true, natural_faults: true, err_returns: true, kinds: [3, 2, 3, 6, 0, 0, 0, 0, 0], ..base },
         "C14" => Profile { name: "C14", kinds: [2, 1, 2, 2, 8, 0, 0, 0, 0], w_token: 9, w_misc: 4, faults: true, scripted_faults: true, err_returns: true, ..base },
-        "C16" => Profile { name: "C16", kinds: [2, 2, 0, 10, 0, 0, 0, 0, 0], table_every: 1, w_token: 8, err_returns: true, ..base },
+        "C16" => Profile { name: "C16", kinds: [2, 2, 0, 10, 0, 2, 0, 0, 0], table_every: 1, w_token: 8, err_returns: true, adapters: 4, ..base },
         _ => base,
     }
 }
@@ -100,6 +105,8 @@ pub struct G {
     pub next_id: Id,
     pub srcs: Vec<(Id, KindTag, bool /*keep*/)>,
     pub idles: Vec<Id>,
+    pub tasks: Vec<Id>,
+    pub adapters: Vec<Id>,
     /// per-run swarm switches
     sw: Swarm,
 }
@@ -140,7 +147,7 @@ fn gen_swarm(rng: &mut Rng, p: &Profile) -> Swarm {
 }
 
 impl G {
-    fn fresh(&mut self) -> Id {
+    pub fn fresh(&mut self) -> Id {
         let i = self.next_id;
         self.next_id += 1;
         i
@@ -236,7 +243,7 @@ impl G {
     }
 
     /// one operation inside a callback (may expand to two: remove + insert for slot reuse)
-    fn cb_op(&mut self, me: Option<Id>, depth: u32) -> Vec<Op> {
+    pub fn cb_op(&mut self, me: Option<Id>, depth: u32) -> Vec<Op> {
         let target_self = me.is_some() && self.rng.chance(2, 5);
         let tgt = if target_self { me } else { self.any_src().map(|s| s.0) };
         let r = self.rng.below(20 + self.p.reuse_bias as u64 * 2);
@@ -310,6 +317,7 @@ impl G {
                 _ => Op::Ping(id),
             },
             KindTag::Lifecycle => Op::Ping(id),
+            KindTag::Channel if self.rng.chance(1, 80) => Op::SendMany(id, *self.rng.pick(&[1023u32, 1024, 1025, 2049])),
             KindTag::Channel => match self.rng.below(10) {
                 0 if self.sw.clones => Op::CloneSender(id),
                 1 if self.sw.clones => Op::DropSender(id),
@@ -434,6 +442,9 @@ impl G {
 
     fn top_op(&mut self) -> Vec<Op> {
         let p = self.p.clone();
+        if p.adapters > 0 && self.rng.below(40) < p.adapters as u64 {
+            return crate::gen2::adapter_op(self).into_iter().collect();
+        }
         let mut w = [p.w_insert, p.w_token, p.w_cause, p.w_dispatch, p.w_advance, p.w_idle, p.w_misc];
         if self.srcs.is_empty() {
             w[1] = 0;
@@ -506,7 +517,7 @@ pub fn generate(profile_name: &str, seed: u64) -> Program {
     let p = profile(profile_name);
     let mut rng = Rng::new(seed ^ 0xC0FF_EE00_0000_0000);
     let sw = gen_swarm(&mut rng, &p);
-    let mut g = G { rng, p: p.clone(), next_id: 0, srcs: vec![], idles: vec![], sw };
+    let mut g = G { rng, p: p.clone(), next_id: 0, srcs: vec![], idles: vec![], tasks: vec![], adapters: vec![], sw };
     let n = g.rng.range(p.steps.0, p.steps.1);
     let mut steps = Vec::new();
     // most programs start with a few sources
